@@ -24,6 +24,8 @@ type C01Case struct {
 	// again with their values rotated by Rekind places (gI gets the value - and the Go kind -
 	// gI8 had, and so on), and the same compiled rules are executed again on the same builder.
 	Rekind int `json:"rekind,omitempty"`
+	// Chain: one rule returns a flat operator chain of 10-200 operands
+	Chain bool `json:"chain,omitempty"`
 }
 
 var c01NumericGlobals = []string{"gI", "gI8", "gI16", "gI32", "gI64", "gU", "gU8", "gU16", "gU32", "gU64", "gF32", "gF64"}
@@ -98,7 +100,7 @@ func classifyExpr(x *Ctx, e *dsl.Expr) (implicitGrouping bool) {
 func init() {
 	register(&Prop{
 		ID:   "C01",
-		Rule: "1-3 rules per text, each `[locals] return <expr>`; type-directed expression trees (depth <= 6, thorough 8) of class int/uint/float/string/bool over integer/real/string/bool literals (boundary and >2^53 values), rule locals, injected values of all 12 numeric kinds + string + bool (plain, struct field one and two levels deep, through pointer and value structs) and @name/@id/@desc/@sal with generated headers; parentheses printed only where the reference precedence requires them plus random redundant ones, random layout; ~20% of cases carry exactly one planted type fault or zero divisor; oracle = independent reference interpreter (value and class equal, or both fail; a panic or a value where the reference says error is a violation). In a quarter of the cases the numeric plain-injected globals are injected again with rotated values and Go kinds and the same compiled rules are executed a second time. Non-trivial: a grouping decided by precedence/associativity, or an int/uint/float kind mix, or an integer operand beyond 2^53, or a planted fault; distinct by case hash",
+		Rule: "1-3 rules per text, each `[locals] return <expr>`; type-directed expression trees (depth <= 6, thorough 8) of class int/uint/float/string/bool over integer/real/string/bool literals (boundary and >2^53 values), rule locals, injected values of all 12 numeric kinds + string + bool (plain, struct field one and two levels deep, through pointer and value structs) and @name/@id/@desc/@sal with generated headers; 2% of the well-typed rules return one flat bracket-free operator chain of 10-200 operands (63-67 and 128-130 preferred) instead; parentheses printed only where the reference precedence requires them plus random redundant ones, random layout; ~20% of cases carry exactly one planted type fault or zero divisor; oracle = independent reference interpreter (value and class equal, or both fail; a panic or a value where the reference says error is a violation). In a quarter of the cases the numeric plain-injected globals are injected again with rotated values and Go kinds and the same compiled rules are executed a second time. Non-trivial: a grouping decided by precedence/associativity, or an int/uint/float kind mix, or an integer operand beyond 2^53, or a planted fault; distinct by case hash",
 		New:  func() interface{} { return &C01Case{} },
 		Gen: func(t *rapid.T) interface{} {
 			c := &C01Case{World: genExprWorld(t)}
@@ -135,7 +137,12 @@ func init() {
 				}
 				cl := []byte{'i', 'i', 'u', 'f', 's', 'b', 'b'}[uni(t, fmt.Sprintf("class%d", i), 0, 6)]
 				body.HasRet = true
-				body.Ret = g.expr(cl, uni(t, fmt.Sprintf("depth%d", i), 1, maxDepth))
+				if g.faultAt < 0 && pct(t, fmt.Sprintf("long_chain%d", i), 2) {
+					body.Ret = g.chain(cl)
+					c.Chain = true
+				} else {
+					body.Ret = g.expr(cl, uni(t, fmt.Sprintf("depth%d", i), 1, maxDepth))
+				}
 				r.Body = body
 				c.Rules = append(c.Rules, r)
 				if g.fault != "" {
@@ -177,6 +184,10 @@ func init() {
 			}
 			if len(c.Lay) > 0 {
 				x.Class("fancy-layout")
+			}
+			if c.Chain {
+				x.Class("flat-operator-chain-of-10-200-operands")
+				x.NonTrivial()
 			}
 			refInj := c.World.inject()
 			phases := 1
